@@ -16,6 +16,7 @@ A failing obligation means the code moved away from the model (GoZero/C06/Model.
 import GoZero.Extracted.C06
 import GoZero.C06.Spec
 import GoZero.C06.Calls
+import GoZero.C06.Ctx
 namespace GoZero.C06.Tie
 open GoZero.C06
 open GoZero.Extracted.C06
@@ -917,6 +918,11 @@ Options value (`Cfg.ofOptions` of the instance's own options is what the driver 
 theorem tie_optionsReachTheNodes (c : Multi.Ctor) (o : Options) : Multi.optsAtNode ({} : Options) optsForwarding c o = o := by
   unfold Multi.optsAtNode
   rw [tie_optsForwardedAtEveryHop c]; simp
+
+/-- round 5b: the DEL of the cleaner's retry is issued with a BACKGROUND context (the context-free `c.rds.Del`,
+whose body hands `context.Background()` to `DelCtx`), not with the ctx of the DelCtx call that armed it —
+`Ctx.RetryCtx.background`, for which `retry_independent_of_writer_context` is proven. -/
+theorem tie_retryDelCtx : Ctx.retrySourceOf retryDelCtx = some .background := by decide
 
 /-- the `Must…` constructors of monc hand their options on as well. -/
 theorem tie_mustNewForward : Multi.hopForwards optsForwarding "monc.MustNewModel" = true
